@@ -40,6 +40,8 @@ TEMPLATE_TAIL = """Environment reminder:
   suites (pkg/binder/controllers/integration_tests, pkg/env-tests, pkg/queuecontroller/controllers, any suite that fails in
   BeforeSuite because /usr/local/kubebuilder/bin/etcd is missing) cannot start on this machine and fail identically on the
   unmodified code: ignore them. TestReclaimGpuDRAIntegrationTest is flaky on the unmodified tree.
+  NEVER use `git stash` (the stash is shared by all worktrees of this repository and other people use it): toggle your
+  change with `git diff > p.diff; git apply -R p.diff; git apply p.diff`.
   Read the code first (start from the listed files, follow callers/callees); the repository's docs/ directory explains the
   intended behaviour.
 
